@@ -716,7 +716,7 @@ func TestC06(t *testing.T) {
 		c.includeChains(evid.N(400, 4000))
 	}
 
-	nU := evid.N(5, 60)
+	nU := evid.N(5, 12)
 	seeds := make([]int64, 0, nU)
 	r := evid.Rand(77)
 	for i := 0; i < nU; i++ {
@@ -728,7 +728,7 @@ func TestC06(t *testing.T) {
 	}
 	sort.Slice(seeds, func(i, j int) bool { return seeds[i] < seeds[j] })
 	for _, s := range seeds {
-		c.programsFor(s, evid.N(40, 120))
+		c.programsFor(s, evid.N(40, 100))
 	}
 	if os.Getenv("VERIF_C06_PART") == "B" {
 		return
@@ -754,7 +754,7 @@ func (c *c06) replay(cs c06Case) {
 	case "image-include":
 		c.t.Skip("include-chain cases are replayed by re-running the sampled programs (deterministic for the seed)")
 	case "program":
-		c.programsFor(cs.Seed, evid.N(40, 120))
+		c.programsFor(cs.Seed, evid.N(40, 100))
 	default:
 		c.t.Fatalf("unknown part %q", cs.Part)
 	}
